@@ -406,10 +406,21 @@ func runC15(c *Ctx, wi int, seed uint64) {
 			}
 			// unchecked fields may change (the node cannot know better); still exactly-once
 			genuine := cloneOp(res)
-			if submitAndJudge(c, w, nd, c15Sub{Label: "genuine", Op: genuine, Expect: "accept"}, wit) {
+			label := "genuine"
+			if r.Intn(3) == 0 && len(genuine.ResultMsgs) > 0 {
+				// the same result, but its messages arrive already attributed to and signed by another participant
+				// (copied from somewhere): whatever the node posts must still be its own - sender and signature
+				other := w.Nodes[(nd.Idx+1)%n]
+				for i := range genuine.ResultMsgs {
+					genuine.ResultMsgs[i].SenderAddr = other.Name
+					genuine.ResultMsgs[i].Signature = ed25519.Sign(other.KeyPair.Priv, genuine.ResultMsgs[i].Data)
+				}
+				label = "genuine:messages-pre-signed-by-another-participant"
+			}
+			if submitAndJudge(c, w, nd, c15Sub{Label: label, Op: genuine, Expect: "accept"}, wit) {
 				retired[nd.Idx] = append(retired[nd.Idx], genuine)
 			}
-			c.Distinct(ty + "|genuine")
+			c.Distinct(ty + "|" + label)
 			submitAndJudge(c, w, nd, c15Sub{Label: "genuine:second-identical-submission", Op: cloneOp(res), Expect: "reject"}, wit)
 			c.Distinct(ty + "|again")
 		}
